@@ -122,7 +122,7 @@ class Extractor:
                     # exact token of the name inside the first-argument string (single-line literal)
                     if sc and a0.value.count(n) >= 1:
                         off = len(a0.value[:a0.value.index(n)].encode("utf-8"))
-                        out.append((n, sc[1], sc[2] + off, sc[2] + off + len(n.encode("utf-8"))))
+                        out.append((n, sc[1], sc[2] + off, sc[2] + off + len(n.encode("utf-8")), (sc[2], sc[3])))
                     else:
                         out.append((n, a0.lineno, None, None))
             elif isinstance(v, (ast.List, ast.Tuple)):
@@ -219,8 +219,10 @@ class Extractor:
         fix = [d for d in fn.decorator_list if self.is_fixture_deco(d)]
         for v, ln, b0, b1 in self.usefixtures(fn.decorator_list):
             self.usages.append(dict(name=v, kind="usefixtures", **(self.cols(ln, b0, b1) if b0 is not None else {"line": ln})))
-        for v, ln, b0, b1 in self.indirect(fn.decorator_list):
+        for v, ln, b0, b1, *whole in self.indirect(fn.decorator_list):
             self.usages.append(dict(name=v, kind="indirect", **(self.cols(ln, b0, b1) if b0 is not None else {"line": ln})))
+            if whole:       # indirect=True: the byte span of the WHOLE first-argument string content (for the C15 known deviation)
+                self.usages[-1]["whole"] = list(whole[0])
         if fix:
             d = fix[0]
             name, scope, autouse = fn.name, "function", False
